@@ -158,11 +158,13 @@ struct OneShot {
     short_writes: u64,
     calls: u64,
     abnormal: Option<Abnormal>,
+    calls_log: Vec<String>,
 }
 
 /// Run a single-value entry point under a write plan.
-fn run_single(entry: &Entry, value: &Value, popts: PrintOptions, plan: &WritePlan, expected_len: usize) -> OneShot {
+fn run_single(entry: &Entry, value: &Value, popts: PrintOptions, plan: &WritePlan, expected_len: usize, trace: bool) -> OneShot {
     let mut sim = SimWriter::new(plan);
+    sim.trace = trace;
     sim.begin_op(expected_len);
     let r: Result<io::Result<()>, Abnormal> = {
         let sim_ref = &mut sim;
@@ -206,6 +208,7 @@ fn run_single(entry: &Entry, value: &Value, popts: PrintOptions, plan: &WritePla
         short_writes: sim.short_writes,
         calls: sim.calls,
         abnormal,
+        calls_log: sim.calls_log,
     }
 }
 
@@ -327,6 +330,7 @@ fn check_history(case: &SinkCase, custom: bool, ops: &[SinkOp], mon: &mut Mon, c
         .sum();
     let sim = Rc::new(RefCell::new(SimWriter::new(&case.plan)));
     sim.borrow_mut().begin_op(total + 64 * ops.len());
+    sim.borrow_mut().trace = mon.keep_log;
     enum P {
         D(Printer<SharedWriter>),
         C(Printer<SharedWriter, lexpr::print::CustomizedFormatter>),
@@ -449,6 +453,12 @@ fn check_history(case: &SinkCase, custom: bool, ops: &[SinkOp], mon: &mut Mon, c
         }
     }
     let s = sim.borrow();
+    if mon.keep_log {
+        for l in &s.calls_log {
+            mon.log.push(format!("    {}", l));
+        }
+        mon.log.push(format!("delivered in total: {:?}", text::show(&s.delivered)));
+    }
     mon.digest = crate::prng::fnv(&s.delivered) ^ mon.digest.rotate_left(5);
     mon.add("write.short_writes", s.short_writes);
     mon.add("write.interrupts_fired", s.interrupts_fired);
@@ -543,7 +553,12 @@ pub fn check_sink_case(case: &SinkCase, mon: &mut Mon) {
             let value = v.to_value();
             let popts = opts::print_options(case.popts);
             let t = reference(&value, entry.default_formatter(), popts);
-            let run = run_single(entry, &value, popts, &case.plan, t.len());
+            let run = run_single(entry, &value, popts, &case.plan, t.len(), mon.keep_log);
+            if mon.keep_log {
+                for l in &run.calls_log {
+                    mon.log.push(format!("    {}", l));
+                }
+            }
             mon.event(|| format!("sink {} -> ok={} delivered={:?} fired={:?}", ctx, run.result_ok, text::show(&run.delivered), run.fired));
             judge_single(case, &t, &run, mon, &ctx);
             // O7.2: the default printer and the customised printer with default options
@@ -566,7 +581,7 @@ pub fn check_sink_case(case: &SinkCase, mon: &mut Mon) {
                         format!("{}: default text {:?}, customised text {:?}", ctx, text::show(&t), text::show(&t2)),
                     );
                 }
-                let run2 = run_single(&twin, &value, PrintOptions::default(), &case.plan, t.len());
+                let run2 = run_single(&twin, &value, PrintOptions::default(), &case.plan, t.len(), false);
                 mon.evaluations += 1;
                 let twin_case = SinkCase { entry: twin, popts: opts::PRINT_DEFAULT, ..case.clone() };
                 judge_single(&twin_case, &t2, &run2, mon, &ctx);
